@@ -513,7 +513,8 @@ def _reorderable():
                 import re
                 m = re.search(r"static_argnums=\(?([0-9, ]*)\)?", deco)
                 nums = {int(x) for x in m.group(1).replace(" ", "").split(",") if x} if m else set()
-                if a.defaults or a.vararg or a.kwarg or a.kwonlyargs or a.posonlyargs or nums - {0} or len(names) < 2 or \
+                other_deco = [d for d in n.decorator_list if "jit" not in ast.unparse(d)]
+                if other_deco or a.defaults or a.vararg or a.kwarg or a.kwonlyargs or a.posonlyargs or nums - {0} or len(names) < 2 or \
                         "dispatch" in deco or "register" in deco or "jvp" in deco or "staticmethod" in deco or "classmethod" in deco:
                     bad.add(n.name)
                 if n.name in defs and defs[n.name] != names:
